@@ -35,7 +35,7 @@ def run(ctx: Ctx) -> None:
     conn = roles.conn
     hl = conn.methods["_connect_hello_login"]
     ph = conn.methods["_process_hello_resp"]
-    pl = conn.methods["_process_login_response"]
+    pl = conn.methods.get("_process_login_response")  # may have been inlined into the exchange function by a maintainer
     dfc = conn.methods["_do_finish_connect"]
     fin = conn.methods["finish_connection"]
     cx = conn.methods["send_messages_await_response_complex"]
@@ -49,7 +49,10 @@ def run(ctx: Ctx) -> None:
         return None
 
     hello_nodes = [n for n in g.reachable() if any(ph in res.callees(hl, c).funcs for c in node_calls(n))]
-    login_nodes = [n for n in g.reachable() if any(pl in res.callees(hl, c).funcs for c in node_calls(n))]
+    if pl is not None:
+        login_nodes = [n for n in g.reachable() if any(pl in res.callees(hl, c).funcs for c in node_calls(n))]
+    else:
+        login_nodes = [n for n in g.reachable() if n.kind == "cond" and any(isinstance(x, ast.Attribute) and x.attr == "invalid_password" for x in ast.walk(n.ast))]
     th = truth_table(g, ["login"], cl, hello_nodes)
     tl = truth_table(g, ["login"], cl, login_nodes)
     ctx.ob("C06.R1", hl, "hello response always goes through the version/name verdict", th.get((True,)) == (True, True) and th.get((False,)) == (True, True), fmt_table(["login"], th))
@@ -108,7 +111,10 @@ def run(ctx: Ctx) -> None:
             rv = norm(n.targets[0])
     keep = {rv} if rv else set()
     hello_arg = [norm(inline_except(hl, c.args[0], keep)) for n in hello_nodes for c in node_calls(n) if ph in res.callees(hl, c).funcs and c.args]
-    login_arg = [norm(inline_except(hl, c.args[0], keep)) for n in login_nodes for c in node_calls(n) if pl in res.callees(hl, c).funcs and c.args]
+    if pl is not None:
+        login_arg = [norm(inline_except(hl, c.args[0], keep)) for n in login_nodes for c in node_calls(n) if pl in res.callees(hl, c).funcs and c.args]
+    else:
+        login_arg = [norm(inline_except(hl, x.value, keep)) for n in login_nodes for x in ast.walk(n.ast) if isinstance(x, ast.Attribute) and x.attr == "invalid_password"]
     ctx.ob("C06.R1", hl, "verdicts take the responses in arrival order", hello_arg == [f"{rv}.pop(0)"] and login_arg == [f"{rv}.pop(0)"] and bool(hello_nodes) and bool(login_nodes) and all(h.id < l.id for h in hello_nodes for l in login_nodes), f"hello <- {hello_arg}, login <- {login_arg}")
     # connect request carries the configured password
     mc = conn.methods["_make_connect_request"]
@@ -215,20 +221,35 @@ def run(ctx: Ctx) -> None:
     if stores:
         ctx.ob("C06.R2", ph, "the recorded version is the device's (major, minor)", norm(inline(ph, stores[0].ast.value)) == f"APIVersion({rp}.api_version_major, {rp}.api_version_minor)", norm(inline(ph, stores[0].ast.value)))
     # password verdict
-    lpn = [p for p in pl.param_names() if p != "self"][0]
-    gl = cfg_of(ctx, pl)
-    lr = [n for n in gl.reachable() if isinstance(n.ast, ast.Raise)]
+    plf = pl if pl is not None else hl
+    gl = cfg_of(ctx, plf)
+    if pl is not None:
+        lpn = [p for p in pl.param_names() if p != "self"][0]
+        lr = [n for n in gl.reachable() if isinstance(n.ast, ast.Raise)]
+    else:
+        lpn = None
+        lr = [n for n in gl.reachable() if isinstance(n.ast, ast.Raise) and isinstance(n.ast.exc, ast.Call) and isinstance(ctx.sym.eval(n.ast.exc.func, "connection"), Ref) and ctx.sym.eval(n.ast.exc.func, "connection").name == "InvalidAuthAPIError"]
 
     def clp(n: Node):
-        if norm(n.ast) == f"{lpn}.invalid_password":
+        t = n.ast
+        if isinstance(t, ast.Attribute) and t.attr == "invalid_password" and (lpn is None or norm(t.value) == lpn):
             return ("invalid", True)
+        if lpn is None:
+            return cl(n)
         return None
 
-    tp = truth_table(gl, ["invalid"], clp, lr)
-    ctx.ob("C06.R2", pl, "login rejected iff the device flags the password invalid", len(lr) == 1 and tp.get((True,)) == (True, True) and tp.get((False,), (True, True))[0] is False, fmt_table(["invalid"], tp))
+    if pl is not None:
+        tp = truth_table(gl, ["invalid"], clp, lr)
+        okp = len(lr) == 1 and tp.get((True,)) == (True, True) and tp.get((False,), (True, True))[0] is False
+        txt = fmt_table(["invalid"], tp)
+    else:
+        tp2 = truth_table(gl, ["login", "invalid"], clp, lr)
+        okp = len(lr) == 1 and tp2.get((True, True)) == (True, True) and all(not tp2[k][0] for k in tp2 if k != (True, True))
+        txt = fmt_table(["login", "invalid"], tp2)
+    ctx.ob("C06.R2", plf, "login rejected iff the device flags the password invalid", okp, txt)
     if lr:
         v = ctx.sym.eval(lr[0].ast.exc.func, "connection") if isinstance(lr[0].ast.exc, ast.Call) else None
-        ctx.ob("C06.R3", pl, "invalid password -> InvalidAuthAPIError", isinstance(v, Ref) and v.name == "InvalidAuthAPIError", f"{v!r}")
+        ctx.ob("C06.R3", plf, "invalid password -> InvalidAuthAPIError", isinstance(v, Ref) and v.name == "InvalidAuthAPIError", f"{v!r}")
 
     # ------------------------------------------------------------------ R4
     for fn in (hl, dfc):
